@@ -162,6 +162,30 @@ impl St {
     }
 }
 
+/// What the checks need to know about an error value of either error type.
+pub trait ErrInfo {
+    /// `Some((expected, completed))` for a partial-buffer error
+    fn partial(&self) -> Option<(usize, usize)>;
+}
+
+impl ErrInfo for VmError {
+    fn partial(&self) -> Option<(usize, usize)> {
+        match self {
+            VmError::PartialBuffer { expected, completed } => Some((*expected, *completed)),
+            _ => None,
+        }
+    }
+}
+
+impl ErrInfo for vm_memory::GuestMemoryError {
+    fn partial(&self) -> Option<(usize, usize)> {
+        match self {
+            vm_memory::GuestMemoryError::PartialBuffer { expected, completed } => Some((*expected, *completed)),
+            _ => None,
+        }
+    }
+}
+
 fn verr(e: &VmError) -> String {
     format!("{:?}", e)
 }
@@ -388,6 +412,16 @@ fn op_bytes<M: VolatileMemory>(c: &M, st: &mut St, t: &mut Tape, cx: &mut Cx) ->
     let size = st.model.len();
     let vs = c.as_volatile_slice();
     ensure!(vs.len() == size, "as_volatile_slice().len() = {}, want {}", vs.len(), size);
+    op_bytes_g(&vs, &|o| o, st, t, cx)
+}
+
+/// The byte-access entry points on any `Bytes<A>` that covers exactly the container (`at` turns a
+/// container offset into its address type).
+pub fn op_bytes_g<A: Copy, B: Bytes<A>>(vs: &B, at: &dyn Fn(usize) -> A, st: &mut St, t: &mut Tape, cx: &mut Cx) -> Result<(), String>
+where
+    B::E: ErrInfo + std::fmt::Debug,
+{
+    let size = st.model.len();
     let off = pick_off(t, size);
     let remaining = size.saturating_sub(off);
     let op = t.below(8);
@@ -399,26 +433,26 @@ fn op_bytes<M: VolatileMemory>(c: &M, st: &mut St, t: &mut Tape, cx: &mut Cx) ->
             if op == 0 {
                 let data = t.bytes(len);
                 note!(cx, "write({} bytes @ {})", len, off);
-                let r = vs.write(&data, off);
+                let r = vs.write(&data, at(off));
                 if len == 0 {
-                    ensure!(matches!(r, Ok(0)), "write(empty @ {}) = {:?}", off, r.map_err(|e| verr(&e)));
+                    ensure!(matches!(r, Ok(0)), "write(empty @ {}) = {:?}", off, r.map_err(|e| format!("{:?}", e)));
                 } else if off >= size {
                     ensure!(r.is_err(), "write({} bytes @ {}) at/past the end of {} returned {:?}", len, off, size, r);
                 } else {
-                    ensure!(matches!(r, Ok(k) if k == n), "write({} bytes @ {}) on {} returned {:?}, want Ok({})", len, off, size, r.map_err(|e| verr(&e)), n);
+                    ensure!(matches!(r, Ok(k) if k == n), "write({} bytes @ {}) on {} returned {:?}, want Ok({})", len, off, size, r.map_err(|e| format!("{:?}", e)), n);
                     st.wr(off, &data[..n], 1);
                 }
             } else {
                 let mut buf = vec![0xEEu8; len];
                 note!(cx, "read({} bytes @ {})", len, off);
-                let r = vs.read(&mut buf, off);
+                let r = vs.read(&mut buf, at(off));
                 if len == 0 {
-                    ensure!(matches!(r, Ok(0)), "read(empty @ {}) = {:?}", off, r.map_err(|e| verr(&e)));
+                    ensure!(matches!(r, Ok(0)), "read(empty @ {}) = {:?}", off, r.map_err(|e| format!("{:?}", e)));
                 } else if off >= size {
                     ensure!(r.is_err(), "read({} bytes @ {}) at/past the end of {} returned {:?}", len, off, size, r);
                     ensure!(buf.iter().all(|b| *b == 0xEE), "failed read modified the buffer");
                 } else {
-                    ensure!(matches!(r, Ok(k) if k == n), "read({} bytes @ {}) on {} returned {:?}, want Ok({})", len, off, size, r.map_err(|e| verr(&e)), n);
+                    ensure!(matches!(r, Ok(k) if k == n), "read({} bytes @ {}) on {} returned {:?}, want Ok({})", len, off, size, r.map_err(|e| format!("{:?}", e)), n);
                     ensure!(buf[..n] == st.model[off..off + n], "read({} @ {}) delivered {}, model {}", len, off, hexs(&buf[..n]), hexs(&st.model[off..off + n]));
                     ensure!(buf[n..].iter().all(|b| *b == 0xEE), "read touched the buffer beyond the {} bytes it reported", n);
                     st.rd_mark(off, n, 1, cx);
@@ -433,22 +467,22 @@ fn op_bytes<M: VolatileMemory>(c: &M, st: &mut St, t: &mut Tape, cx: &mut Cx) ->
             let is_write = op == 2 || op == 4;
             let data = t.bytes(len);
             let mut rbuf = vec![0xEEu8; len];
-            let r: Result<(), VmError> = match op {
+            let r: Result<(), B::E> = match op {
                 2 => {
                     note!(cx, "write_slice({} @ {})", len, off);
-                    vs.write_slice(&data, off)
+                    vs.write_slice(&data, at(off))
                 }
                 3 => {
                     note!(cx, "read_slice({} @ {})", len, off);
-                    vs.read_slice(&mut rbuf, off)
+                    vs.read_slice(&mut rbuf, at(off))
                 }
                 4 => {
                     note!(cx, "write_obj::<{}>(@ {})", OBJ_NAMES[ty], off);
-                    write_obj_sel(&vs, ty, &data, off)
+                    write_obj_sel(vs, ty, &data, at(off))
                 }
                 _ => {
                     note!(cx, "read_obj::<{}>(@ {})", OBJ_NAMES[ty], off);
-                    match read_obj_sel(&vs, ty, off) {
+                    match read_obj_sel(vs, ty, at(off)) {
                         Ok(v) => {
                             rbuf.copy_from_slice(&v);
                             Ok(())
@@ -458,11 +492,11 @@ fn op_bytes<M: VolatileMemory>(c: &M, st: &mut St, t: &mut Tape, cx: &mut Cx) ->
                 }
             };
             if len == 0 {
-                ensure!(r.is_ok(), "empty slice access @ {} returned {:?}", off, r.map_err(|e| verr(&e)));
+                ensure!(r.is_ok(), "empty slice access @ {} returned {:?}", off, r.map_err(|e| format!("{:?}", e)));
             } else if off >= size {
                 ensure!(r.is_err(), "slice/object access of {} bytes at/past the end ({} of {}) succeeded", len, off, size);
             } else if n == len {
-                ensure!(r.is_ok(), "slice/object access {} @ {} fits in {} but returned {:?}", len, off, size, r.map_err(|e| verr(&e)));
+                ensure!(r.is_ok(), "slice/object access {} @ {} fits in {} but returned {:?}", len, off, size, r.map_err(|e| format!("{:?}", e)));
                 if is_write {
                     st.wr(off, &data, 1);
                 } else {
@@ -470,8 +504,8 @@ fn op_bytes<M: VolatileMemory>(c: &M, st: &mut St, t: &mut Tape, cx: &mut Cx) ->
                     st.rd_mark(off, len, 1, cx);
                 }
             } else {
-                ensure!(matches!(&r, Err(VmError::PartialBuffer { expected, completed }) if *expected == len && *completed == n),
-                    "slice/object access {} @ {} on {} returned {:?}, want PartialBuffer{{expected:{},completed:{}}}", len, off, size, r.map_err(|e| verr(&e)), len, n);
+                ensure!(r.as_ref().err().and_then(|e| e.partial()) == Some((len, n)),
+                    "slice/object access {} @ {} on {} returned {:?}, want PartialBuffer{{expected:{},completed:{}}}", len, off, size, r.map_err(|e| format!("{:?}", e)), len, n);
                 if is_write {
                     st.wr(off, &data[..n], 1);
                 } else if op == 3 {
@@ -491,9 +525,9 @@ fn op_bytes<M: VolatileMemory>(c: &M, st: &mut St, t: &mut Tape, cx: &mut Cx) ->
             if op == 6 {
                 let ord = t.pick(&STORE_ORDERS);
                 note!(cx, "store::<{}>(@ {})", ATOM_NAMES[ty], off);
-                let r = store_sel(&vs, ty, &data, off, ord);
+                let r = store_sel(vs, ty, &data, at(off), ord);
                 if fits && aligned {
-                    ensure!(r.is_ok(), "aligned store::<{}>(@ {}) on {} returned {:?}", ATOM_NAMES[ty], off, size, r.map_err(|e| verr(&e)));
+                    ensure!(r.is_ok(), "aligned store::<{}>(@ {}) on {} returned {:?}", ATOM_NAMES[ty], off, size, r.map_err(|e| format!("{:?}", e)));
                     st.wr(off, &data[..sz], 7);
                 } else {
                     ensure!(r.is_err(), "store::<{}>(@ {}) on {} succeeded (fits={}, aligned={})", ATOM_NAMES[ty], off, size, fits, aligned);
@@ -502,9 +536,9 @@ fn op_bytes<M: VolatileMemory>(c: &M, st: &mut St, t: &mut Tape, cx: &mut Cx) ->
             } else {
                 let ord = t.pick(&LOAD_ORDERS);
                 note!(cx, "load::<{}>(@ {})", ATOM_NAMES[ty], off);
-                let r = load_sel(&vs, ty, off, ord);
+                let r = load_sel(vs, ty, at(off), ord);
                 if fits && aligned {
-                    ensure!(matches!(&r, Ok(v) if v[..] == st.model[off..off + sz]), "load::<{}>(@ {}) = {:?}, model {}", ATOM_NAMES[ty], off, r.map_err(|e| verr(&e)), hexs(&st.model[off..off + sz]));
+                    ensure!(matches!(&r, Ok(v) if v[..] == st.model[off..off + sz]), "load::<{}>(@ {}) = {:?}, model {}", ATOM_NAMES[ty], off, r.map_err(|e| format!("{:?}", e)), hexs(&st.model[off..off + sz]));
                     st.rd_mark(off, sz, 7, cx);
                 } else {
                     ensure!(r.is_err(), "load::<{}>(@ {}) on {} succeeded (fits={}, aligned={})", ATOM_NAMES[ty], off, size, fits, aligned);
@@ -518,10 +552,17 @@ fn op_bytes<M: VolatileMemory>(c: &M, st: &mut St, t: &mut Tape, cx: &mut Cx) ->
 
 /// Stream transfers into / out of the container (in-memory adapters and a real descriptor).
 fn op_stream<M: VolatileMemory>(c: &M, st: &mut St, t: &mut Tape, cx: &mut Cx) -> Result<(), String> {
+    let vs = c.as_volatile_slice();
+    op_stream_g(&vs, &|o| o, st, t, cx)
+}
+
+pub fn op_stream_g<A: Copy, B: Bytes<A>>(vs: &B, at: &dyn Fn(usize) -> A, st: &mut St, t: &mut Tape, cx: &mut Cx) -> Result<(), String>
+where
+    B::E: ErrInfo + std::fmt::Debug,
+{
     use std::io::{Seek, SeekFrom};
     use std::os::unix::fs::FileExt;
     let size = st.model.len();
-    let vs = c.as_volatile_slice();
     let off = t.idx(size + 1);
     let rem = size - off;
     let count = match t.below(4) {
@@ -544,7 +585,7 @@ fn op_stream<M: VolatileMemory>(c: &M, st: &mut St, t: &mut Tape, cx: &mut Cx) -
             note!(cx, "{}(@ {}, src kind {} len {}, count {})", if exact { "read_exact_volatile_from" } else { "read_volatile_from" }, off, kind, srclen, count);
             let fits = count <= rem;
             let (ok, moved): (bool, usize) = {
-                let mut run = |src: &mut dyn FnMut(bool) -> Result<usize, VmError>| -> (bool, usize) {
+                let mut run = |src: &mut dyn FnMut(bool) -> Result<usize, B::E>| -> (bool, usize) {
                     match src(exact) {
                         Ok(n) => (true, n),
                         Err(_) => (false, 0),
@@ -553,18 +594,18 @@ fn op_stream<M: VolatileMemory>(c: &M, st: &mut St, t: &mut Tape, cx: &mut Cx) -
                 match kind {
                     0 => {
                         let mut s: &[u8] = &data;
-                        let r = run(&mut |ex| if ex { vs.read_exact_volatile_from(off, &mut s, count).map(|_| count) } else { vs.read_volatile_from(off, &mut s, count) });
+                        let r = run(&mut |ex| if ex { vs.read_exact_volatile_from(at(off), &mut s, count).map(|_| count) } else { vs.read_volatile_from(at(off), &mut s, count) });
                         (r.0, data.len() - s.len())
                     }
                     1 => {
                         let mut s = std::io::Cursor::new(&data[..]);
-                        let r = run(&mut |ex| if ex { vs.read_exact_volatile_from(off, &mut s, count).map(|_| count) } else { vs.read_volatile_from(off, &mut s, count) });
+                        let r = run(&mut |ex| if ex { vs.read_exact_volatile_from(at(off), &mut s, count).map(|_| count) } else { vs.read_volatile_from(at(off), &mut s, count) });
                         (r.0, s.position() as usize)
                     }
                     _ => {
                         let mut f = memfd(0);
                         f.write_all_at(&data, 0).map_err(|e| e.to_string())?;
-                        let r = run(&mut |ex| if ex { vs.read_exact_volatile_from(off, &mut f, count).map(|_| count) } else { vs.read_volatile_from(off, &mut f, count) });
+                        let r = run(&mut |ex| if ex { vs.read_exact_volatile_from(at(off), &mut f, count).map(|_| count) } else { vs.read_volatile_from(at(off), &mut f, count) });
                         (r.0, f.seek(SeekFrom::Current(0)).map_err(|e| e.to_string())? as usize)
                     }
                 }
@@ -592,7 +633,7 @@ fn op_stream<M: VolatileMemory>(c: &M, st: &mut St, t: &mut Tape, cx: &mut Cx) -
             let (ok, got): (bool, Vec<u8>) = match kind {
                 0 => {
                     let mut v: Vec<u8> = Vec::new();
-                    let r = if all { vs.write_all_volatile_to(off, &mut v, count).map(|_| count) } else { vs.write_volatile_to(off, &mut v, count) };
+                    let r = if all { vs.write_all_volatile_to(at(off), &mut v, count).map(|_| count) } else { vs.write_volatile_to(at(off), &mut v, count) };
                     (r.is_ok(), v)
                 }
                 1 => {
@@ -601,7 +642,7 @@ fn op_stream<M: VolatileMemory>(c: &M, st: &mut St, t: &mut Tape, cx: &mut Cx) -
                     let r;
                     {
                         let mut cur = std::io::Cursor::new(&mut store[..]);
-                        r = if all { vs.write_all_volatile_to(off, &mut cur, count).map(|_| count) } else { vs.write_volatile_to(off, &mut cur, count) };
+                        r = if all { vs.write_all_volatile_to(at(off), &mut cur, count).map(|_| count) } else { vs.write_volatile_to(at(off), &mut cur, count) };
                         pos = cur.position() as usize;
                     }
                     store.truncate(pos);
@@ -609,7 +650,7 @@ fn op_stream<M: VolatileMemory>(c: &M, st: &mut St, t: &mut Tape, cx: &mut Cx) -
                 }
                 _ => {
                     let mut f = memfd(0);
-                    let r = if all { vs.write_all_volatile_to(off, &mut f, count).map(|_| count) } else { vs.write_volatile_to(off, &mut f, count) };
+                    let r = if all { vs.write_all_volatile_to(at(off), &mut f, count).map(|_| count) } else { vs.write_volatile_to(at(off), &mut f, count) };
                     (r.is_ok(), pread_all(&f, 0, count + 8))
                 }
             };
@@ -650,6 +691,12 @@ pub fn history<M: VolatileMemory>(c: &M, host: *mut u8, size: usize, check_frame
 }
 
 pub fn history_raw<M: VolatileMemory>(c: &M, raw: &dyn Raw, size: usize, check_frame: &dyn Fn() -> Result<(), String>, t: &mut Tape, cx: &mut Cx) -> Result<(), String> {
+    history_alt::<M, ()>(c, None, raw, size, check_frame, t, cx)
+}
+
+/// `alt`: the guest region whose mapping `c` is; its own byte-access interface (addressed by
+/// region offsets) is then exercised on the same model, interleaved with the slice-level one.
+pub fn history_alt<M: VolatileMemory, B: vm_memory::bitmap::Bitmap>(c: &M, alt: Option<&vm_memory::GuestRegionMmap<B>>, raw: &dyn Raw, size: usize, check_frame: &dyn Fn() -> Result<(), String>, t: &mut Tape, cx: &mut Cx) -> Result<(), String> {
     ensure!(c.len() == size && c.is_empty() == (size == 0), "len()/is_empty() of the container");
     let init: Vec<u8> = (0..size).map(|i| (i as u8).wrapping_mul(7).wrapping_add(3)).collect();
     raw.write_all(&init);
@@ -659,7 +706,21 @@ pub fn history_raw<M: VolatileMemory>(c: &M, raw: &dyn Raw, size: usize, check_f
         if t.exhausted() && i > 0 {
             break;
         }
+        let via_region = match alt {
+            Some(_) => t.flag(),
+            None => false,
+        };
         match t.below(11) {
+            10 if via_region => {
+                cx.nt("region_level_interface");
+                note!(cx, "[region] ");
+                op_stream_g(alt.unwrap(), &|o| vm_memory::MemoryRegionAddress(o as u64), &mut st, t, cx)?
+            }
+            0..=3 if via_region => {
+                cx.nt("region_level_interface");
+                note!(cx, "[region] ");
+                op_bytes_g(alt.unwrap(), &|o| vm_memory::MemoryRegionAddress(o as u64), &mut st, t, cx)?
+            }
             10 => op_stream(c, &mut st, t, cx)?,
             0..=3 => op_bytes(c, &mut st, t, cx)?,
             4 | 5 => {
@@ -732,7 +793,10 @@ fn run_region(t: &mut Tape, cx: &mut Cx) -> Result<(), String> {
         }
         Ok(())
     };
-    history(&r, host, size, &chk, t, cx)
+    // wrapped into a guest region: the region's own byte-access interface (addressed by region
+    // offsets) runs on the same model, interleaved with the slice-level one
+    let gr = vm_memory::GuestRegionMmap::new(r, vm_memory::GuestAddress(0x10_0000 * (1 + t.below(3)))).map_err(|e| format!("{:?}", e))?;
+    history_alt(&*gr, Some(&gr), &PtrRaw(host, size), size, &chk, t, cx)
 }
 
 #[cfg(feature = "xen")]
@@ -740,14 +804,28 @@ fn run_region(_t: &mut Tape, _cx: &mut Cx) -> Result<(), String> {
     Ok(())
 }
 
+/// xen build: the same histories over emulated Unix / foreign / grant regions, in particular
+/// regions mapped on demand (the harness shares this run with C17, which adds the device-side
+/// conditions; the model comparison after every step is the C04 oracle).
+#[cfg(feature = "xen")]
+fn run_xen(t: &mut Tape, cx: &mut Cx) -> Result<(), String> {
+    crate::xen_emul::run_c17_history(t, cx)
+}
+
+#[cfg(not(feature = "xen"))]
+fn run_xen(_t: &mut Tape, _cx: &mut Cx) -> Result<(), String> {
+    Ok(())
+}
+
 pub fn property() -> Property {
     Property {
         id: "C04",
-        rule: "a case = one container (VolatileSlice of 0..96 bytes at any base alignment mod 16 inside a canary frame, or an MmapRegion of 1 byte..2 pages +- odd) + a history of 1..30 operations over every accessor kind (Bytes write/read/write_slice/read_slice/write_obj/read_obj/store/load, get_ref store/load, get_array_ref load/store/ref_at/copy_to/copy_from/copy_to_volatile_slice/to_slice, slice copy_to/copy_from for 11 element types, slice-to-slice copies incl. overlapping) with offsets inside/touching/crossing the end and buffer lengths around 7..9 and around the remaining length; model compared with the raw memory and the frame after every step; non-trivial = op touches or crosses the container end, length in 7..=9, buffer length != container length, overlapping copy, refused atomic, or a read through a route different from the one that wrote the bytes; distinct = decoded (container, history)",
+        rule: "a case = one container (VolatileSlice of 0..96 bytes at any base alignment mod 16 inside a canary frame, or an MmapRegion of 1 byte..2 pages +- odd, addressed as a slice and through the byte-access interface of the guest region around it; xen build: emulated Unix / foreign / grant regions incl. regions mapped on demand, judged through the device file) + a history of 1..30 operations over every accessor kind (Bytes write/read/write_slice/read_slice/write_obj/read_obj/store/load, get_ref store/load, get_array_ref load/store/ref_at/copy_to/copy_from/copy_to_volatile_slice/to_slice, slice copy_to/copy_from for 11 element types, slice-to-slice copies incl. overlapping) with offsets inside/touching/crossing the end and buffer lengths around 7..9 and around the remaining length; model compared with the raw memory and the frame after every step; non-trivial = op touches or crosses the container end, length in 7..=9, buffer length != container length, overlapping copy, refused atomic, or a read through a route different from the one that wrote the bytes; distinct = decoded (container, history)",
         assumptions: &["values are encoded with to_ne/le/be_bytes, not through ByteValued::as_slice", "zero-sized element types are C18's business"],
         subchecks: vec![
             SubCheck { name: "slice", builds: &[Build::Std], kind: Kind::Random { quick: 60_000, thorough: 3_000_000, max_words: 260 }, run: run_slice },
             SubCheck { name: "region", builds: &[Build::Std], kind: Kind::Random { quick: 15_000, thorough: 600_000, max_words: 260 }, run: run_region },
+            SubCheck { name: "xen_regions", builds: &[Build::Xen], kind: Kind::Random { quick: 5_000, thorough: 200_000, max_words: 200 }, run: run_xen },
         ],
     }
 }
